@@ -3,6 +3,8 @@
    (every selected file gets exactly one such copy) is C02/C06. *)
 From XcpModel Require Import Base Extents Sparse Blocks CopyLoop FileCopy.
 From XcpProofs Require Import ExtentsProofs SparseProofs BlocksProofs CopyLoopProofs FileCopyProofs.
+From XcpModel Require Import Extracted.
+From XcpProofs Require Import ExtractedOk.
 From Coq Require Import Permutation.
 
 (* nothing of a previous destination survives: after CopyHandle::new the
@@ -100,9 +102,21 @@ Proof. vm_compute. repeat split. Qed.
 (* why the repair of the parblock block job was needed (pinned behaviour) *)
 Check block_job_pinned_short_refuted.
 
+(* ---- tie to the current source (translator): the model's definitions used above are
+   EQUAL to what /verif/xlate extracts from the repository on this run ---- *)
+Theorem C01_src_block_partition : forall s e bs,
+  range_jobs s (e - s) bs =
+  map (fun k => (x_qfr_off s e bs (N.of_nat k), x_qfr_bytes s e bs (N.of_nat k))) (seq 0 (N.to_nat (x_qfr_blocks s e bs))).
+Proof. exact x_qfr_jobs_ok. Qed.
+Theorem C01_src_copy_bytes_loop : forall written len bs,
+  x_copy_bytes_continue written len = negb (len <=? written) /\ x_copy_bytes_request written len bs = N.min (len - written) bs.
+Proof. intros. split; [apply x_copy_bytes_continue_ok|apply x_copy_bytes_request_ok]. Qed.
+
 Print Assumptions C01_dest_fresh_after_new.
 Print Assumptions C01_blocks_partition.
 Print Assumptions C01_copy_bytes_exact.
 Print Assumptions C01_parfile_file.
 Print Assumptions C01_parblock_file.
 Print Assumptions C01_parfile_nothing_beyond.
+Print Assumptions C01_src_block_partition.
+Print Assumptions C01_src_copy_bytes_loop.
